@@ -128,6 +128,16 @@ CLAIMS = {
              "violates (tversky_loss TypeError, ncc mask shape, tversky weight shape, MI mask, NMI class) are refuted and "
              "listed as known findings. MI/NMI identical/range need properties of log (partial).",
         ref="5 C16"),
+    "C18": dict(
+        technique="Lean 4 theorems on models of the MetaImage header grammar, channel axis shuffle, NIfTI affine/LPS-RAS and "
+                  "vector-intent layout + exhaustive format x D x channels x dtype x compress correspondence incl. SimpleITK",
+        text="17 theorems: parse(serialise h) = h for every well-formed MetaImage header (any D >= 1, C >= 1); exact header "
+             "lines, TransformMatrix layout and round trip, element-type table; the read shuffle undoes the write shuffle for "
+             "every rank/channel count and the file layout is pixel-interleaved; LPS<->RAS is an involution; NIfTI geometry "
+             "(origin/spacing/direction through the 4x4 affine), pixdim and scalar/vector-intent layout round-trip; flow "
+             "vectors to world axes and back. The four defects found (every NIfTI write, 2-D and multi-channel .mha reads, "
+             "ITK vector NIfTI reads) were repaired by fix: commits. Voxel byte encoding (numpy/zlib/nibabel/ITK) is trusted.",
+        ref="5 C18"),
     "C19": dict(
         technique="Lean 4 induction over programs on a provenance model of the __torch_function__ dispatcher, "
                   "__getitem__, cat/split, copy/pickle + exact correspondence on random op programs",
